@@ -194,7 +194,9 @@ def run(repo: Repo, rep: Report, tier: str) -> None:
     rep.require(n_imports >= 25, f"R12.1: only {n_imports} import statements found in runtime payload (floor 25)")
 
     # ---------------------------------------------------------------- R12.3 verbatim copy
-    emit = repo.func("emitters.core_emitter:CoreEmitter.emit")
+    from sa.flatten import flatten as _fl12
+
+    emit = _fl12(repo.func("emitters.core_emitter:CoreEmitter.emit"))  # reading the packaged file may live in a helper
     loops = [n for n in own_nodes(emit.node) if isinstance(n, ast.For) and "RUNTIME_FILES" in norm(n.iter)]
     rep.require(len(loops) == 1, f"R12.3: expected exactly one loop over RUNTIME_FILES in CoreEmitter.emit, found {len(loops)}")
     for lp in loops:
